@@ -23,8 +23,9 @@ def line (head : String) (before after : Heap) : String :=
 def kvArg (ws : List String) (key : String) : Option String :=
   (ws.filterMap (fun w => if w.startsWith (key ++ "=") then some (w.drop (key.length + 1)).toString else none)).head?
 
-def parsePolicy (name : String) (p : Nat) : Option Policy :=
+def parsePolicy (name : String) (p : Nat) (a : Nat) : Option Policy :=
   match name with
+  | "static" => some (Policy.static (if p ≤ 64 then 64 else if p ≤ 256 then 256 else 2048) (a != 0))
   | "default" => some Policy.default
   | "reusable" => some Policy.reusable
   | "mtsafe" => some Policy.mtsafe
@@ -60,6 +61,7 @@ def seqOp (q : SeqSt) (ws : List String) : SeqSt × String :=
           match step q.s (Op.alloc k sz) with
           | (s', Res.alloc id blk) =>
               ({ q with s := s' }, line (s!"alloc#{id} sz={sz} at={blkStr blk}" ++ exA q.s sz) q.s.heap s'.heap)
+          | (_, Res.rejected) => (q, s!"assert sz={sz}")
           | _ => (q, "skip")
       | _, _ => (q, "skip")
   | [c, k, kind] =>
@@ -76,16 +78,24 @@ def seqOp (q : SeqSt) (ws : List String) : SeqSt × String :=
                   let (s'', _) := step s' (Op.free id)
                   ({ q with s := s'' },
                    line (s!"cdrop#{id} sz={sz} at={blkStr blk}" ++ exA q.s sz ++ " freed=ok" ++ exF q.s sz) q.s.heap s''.heap)
+            | (_, Res.rejected) => (q, s!"assert sz={sz}")
             | _ => (q, "skip")
         | _, _ => (q, "skip")
       else (q, "skip")
   | ["free", id] => match id.toNat? with | some id => seqFree q id false | none => (q, "skip")
   | ["fin", id] => match id.toNat? with | some id => seqFree q id false | none => (q, "skip")
   | ["kill", id] => match id.toNat? with | some id => seqFree q id true | none => (q, "skip")
-  | ["newobj"] =>
-      match step q.s Op.newobj with
-      | (s', Res.obj k n) => ({ q with s := s' }, s!"obj#{k} size={n}")
-      | _ => (q, "skip")
+  | [mv] =>
+      -- moves of a plain `reusable_storage`: `mvctor` / `mvassign` are spellings of `moveOut`, `mvself` does nothing
+      if q.s.cfg.pol == Policy.reusable && q.s.cfg.extra == 0 &&
+          (mv == "mvctor" || mv == "mvassign" || mv == "mvself" || mv == "swapobj") then
+        let s' := if mv == "mvself" then q.s else if mv == "swapobj" then (step q.s Op.swapobj).1 else (step q.s Op.moveOut).1
+        ({ q with s := s' }, line s!"{mv} cap={s'.cap} ocap={s'.ocap}" q.s.heap s'.heap)
+      else if mv == "newobj" then
+        match step q.s Op.newobj with
+        | (s', Res.obj k n) => ({ q with s := s' }, s!"obj#{k} size={n}")
+        | _ => (q, "skip")
+      else (q, "skip")
   | ["bufset", n] =>
       match n.toNat? with
       | some n =>
@@ -164,9 +174,10 @@ partial def loop (lines : Array String) (i : Nat) (m : Mode) : IO Unit := do
     | ("case" :: id :: "seq" :: pol :: rest), _ =>
         IO.println s!"case {id}"
         let p := ((kvArg rest "p").bind String.toNat?).getD 0
+        let a := ((kvArg rest "a").bind String.toNat?).getD 1
         let ex := ((kvArg rest "ex").bind String.toNat?).getD 0
         let fs := ((kvArg rest "fs").getD "").splitOn "," |>.filterMap String.toNat?
-        match parsePolicy pol p with
+        match parsePolicy pol p a with
         | some pl => loop lines (i+1) (Mode.seq { s := init { pol := pl, extra := ex }, fs := fs })
         | none => IO.println "bad-policy"; loop lines (i+1) Mode.swallow
     | ("case" :: id :: "sched" :: nt :: _), _ =>
